@@ -33,14 +33,74 @@ Proof.
     destruct (0 <=? sinceCase lx)%Z; split; reflexivity.
 Qed.
 
-Lemma lex_word_keeps token kind lx t lx' :
-  lex_word token kind lx = LexTok t lx' ->
+Lemma lex_word_keeps token kind aa lx t lx' :
+  lex_word token kind aa lx = LexTok t lx' ->
   remaining lx' = remaining lx /\ ioRedirect lx' = ioRedirect lx.
 Proof.
   unfold lex_word.
   repeat match goal with |- context [if ?b then _ else _] => destruct b end;
     try destruct kind; intro H; inversion H; subst; split; reflexivity.
 Qed.
+
+(* the part of Lex after the operator and io-number tests *)
+Definition lex_tail (token : str) (kind : wkind) (aa : bool) (lx : lexer) : lex_result :=
+  let lx := if atCommandStart lx then set_for (-1) (set_case (-1) lx) else lx in
+  match (if atCommandStart lx && negb (inCasePattern lx) && negb aa
+         then lookup keyword_table token else None) with
+  | Some (t, eff) => LexTok t (eff lx)
+  | None => lex_word token kind aa (bump lx)
+  end.
+
+Lemma lex_tail_keeps token kind aa lx t lx' :
+  lex_tail token kind aa lx = LexTok t lx' ->
+  remaining lx' = remaining lx /\ ioRedirect lx' = ioRedirect lx.
+Proof.
+  unfold lex_tail.
+  set (l2 := if atCommandStart lx then set_for (-1) (set_case (-1) lx) else lx).
+  assert (H2 : remaining l2 = remaining lx /\ ioRedirect l2 = ioRedirect lx)
+    by (unfold l2; destruct (atCommandStart lx); split; reflexivity).
+  destruct H2 as [Hr2 Hi2].
+  destruct (if atCommandStart l2 && negb (inCasePattern l2) && negb aa then lookup keyword_table token else None)
+    as [[t0 eff] |] eqn:Ekw.
+  - assert (Hk : lookup keyword_table token = Some (t0, eff))
+      by (destruct (atCommandStart l2 && negb (inCasePattern l2) && negb aa)%bool; [exact Ekw | discriminate]).
+    intro H. injection H as <- <-. destruct (keyword_effects_keep _ _ _ Hk l2) as [Hr Hi]. split; congruence.
+  - intro H. apply lex_word_keeps in H. destruct H as [Hr Hi].
+    destruct (bump_keeps l2) as [Hrb Hib]. split; congruence.
+Qed.
+
+Lemma lex_tail_panic token kind aa lx : lex_tail token kind aa lx = LexPanic -> kind = WkNil.
+Proof.
+  unfold lex_tail.
+  match goal with |- context [match ?x with Some _ => _ | None => _ end] => destruct x as [[t0 eff] |] end;
+    [discriminate |].
+  unfold lex_word.
+  repeat match goal with |- context [if ?b then _ else _] => destruct b end;
+    try discriminate; destruct kind; try discriminate; reflexivity.
+Qed.
+
+(* Lex in terms of lex_tail *)
+Lemma Lex_shape lx :
+  Lex lx =
+  match remaining lx with
+  | [] => LexEOF lx
+  | first :: rest =>
+    let '(token, kind, lx1) :=
+      match ioRedirect lx with
+      | [] => (t_text first, t_kind first, set_remaining rest (set_io [] lx))
+      | io => (io, WkPlain, set_io [] lx)
+      end in
+    let lx2 := set_aa false lx1 in
+    match lookup operator_table token with
+    | Some (t, eff) => LexTok t (eff lx2)
+    | None =>
+      match match_io_number token with
+      | Some (_, op) => LexTok tkIO_NUMBER (set_io op lx2)
+      | None => lex_tail token kind (afterAssign lx1) lx2
+      end
+    end
+  end.
+Proof. reflexivity. Qed.
 
 Lemma pending_is_operator io :
   existsb (str_eqb io) redirect_ops = true ->
@@ -62,40 +122,31 @@ Qed.
 Lemma Lex_progress lx t lx' :
   io_ok lx -> Lex lx = LexTok t lx' -> io_ok lx' /\ (measure lx' < measure lx)%nat.
 Proof.
-  intros Hio. unfold Lex. destruct (remaining lx) as [| first rest] eqn:Erem; [discriminate |].
+  intros Hio. rewrite Lex_shape. destruct (remaining lx) as [| first rest] eqn:Erem; [discriminate |].
   destruct (ioRedirect lx) as [| b bs] eqn:Eio.
   - (* a token of `remaining` is consumed *)
-    set (lx1 := set_remaining rest (set_io [] lx)).
-    assert (Hr1 : remaining lx1 = rest) by reflexivity.
-    assert (Hi1 : ioRedirect lx1 = []) by reflexivity.
+    set (lx1 := set_remaining rest (set_io [] lx)). set (lx2 := set_aa false lx1).
+    assert (Hr2 : remaining lx2 = rest) by reflexivity.
+    assert (Hi2 : ioRedirect lx2 = []) by reflexivity.
     assert (Hm : forall l, remaining l = rest ->
                 (ioRedirect l = [] \/ existsb (str_eqb (ioRedirect l)) redirect_ops = true) ->
                 io_ok l /\ (measure l < measure lx)%nat).
     { intros l Hr Hi. split; [exact Hi |]. unfold measure. rewrite Hr, Erem, Eio. cbn [length].
       destruct (ioRedirect l); lia. }
+    cbv zeta. fold lx1. fold lx2.
     destruct (lookup operator_table (t_text first)) as [[t0 eff] |] eqn:Eop.
-    + intro H. injection H as <- <-. destruct (operator_effects_keep _ _ _ Eop lx1) as [Hr Hi].
+    + intro H. injection H as <- <-. destruct (operator_effects_keep _ _ _ Eop lx2) as [Hr Hi].
       apply Hm; [congruence | left; congruence].
     + destruct (match_io_number (t_text first)) as [[ds op] |] eqn:Enum.
       * intro H. injection H as <- <-. apply Hm; [reflexivity | right].
         cbn [ioRedirect set_io]. exact (match_io_number_op _ _ _ Enum).
-      * assert (Hword : forall l, remaining l = rest -> ioRedirect l = [] ->
-                  lex_word (t_text first) (t_kind first) (bump l) = LexTok t lx' ->
-                  io_ok lx' /\ (measure lx' < measure lx)%nat).
-        { intros l Hr Hi H. apply lex_word_keeps in H. destruct H as [Hr' Hi'].
-          destruct (bump_keeps l) as [Hrb Hib]. apply Hm; [congruence | left; congruence]. }
-        destruct (atCommandStart lx1).
-        -- set (lx2 := set_for (-1) (set_case (-1) lx1)).
-           destruct (lookup keyword_table (t_text first)) as [[t0 eff] |] eqn:Ekw.
-           ++ intro H. injection H as <- <-. destruct (keyword_effects_keep _ _ _ Ekw lx2) as [Hr Hi].
-              apply Hm; [rewrite Hr; reflexivity | left; rewrite Hi; reflexivity].
-           ++ apply Hword; reflexivity.
-        -- apply Hword; reflexivity.
+      * intro H. apply lex_tail_keeps in H. destruct H as [Hr Hi].
+        apply Hm; [congruence | left; congruence].
   - (* the pending operator of an io-number token is consumed *)
     destruct Hio as [Hio | Hio]; [congruence |]. rewrite Eio in Hio.
-    destruct (pending_is_operator _ Hio) as (t0 & Hop). rewrite Hop.
+    destruct (pending_is_operator _ Hio) as (t0 & Hop). cbv zeta. rewrite Hop.
     intro H. injection H as <- <-. split; [left; reflexivity |].
-    unfold measure. cbn [remaining ioRedirect set_acs set_io]. rewrite Erem, Eio. lia.
+    unfold measure. cbn [remaining ioRedirect set_acs set_io set_aa]. rewrite Erem, Eio. lia.
 Qed.
 
 Lemma lex_stream_fuel fuel : forall lx,
@@ -117,71 +168,41 @@ Qed.
 
 (* ---------- the only panic site: a word that ShToken() cannot tokenize (WkNil) ---------- *)
 
-Lemma lex_word_panic token kind lx : lex_word token kind lx = LexPanic -> kind = WkNil.
-Proof.
-  unfold lex_word.
-  repeat match goal with |- context [if ?b then _ else _] => destruct b end;
-    try discriminate; destruct kind; try discriminate; reflexivity.
-Qed.
-
 Lemma Lex_panic lx : Lex lx = LexPanic ->
   exists first rest, remaining lx = first :: rest /\ t_kind first = WkNil.
 Proof.
-  unfold Lex. destruct (remaining lx) as [| first rest]; [discriminate |].
-  destruct (ioRedirect lx) as [| b bs].
+  rewrite Lex_shape. destruct (remaining lx) as [| first rest]; [discriminate |].
+  destruct (ioRedirect lx) as [| b bs]; cbv zeta.
   - destruct (lookup operator_table (t_text first)) as [[t0 eff] |]; [discriminate |].
     destruct (match_io_number (t_text first)) as [[ds op] |]; [discriminate |].
-    intro H. exists first, rest. split; [reflexivity |].
-    destruct (atCommandStart _).
-    + destruct (lookup keyword_table (t_text first)) as [[t0 eff] |]; [discriminate |].
-      exact (lex_word_panic _ _ _ H).
-    + exact (lex_word_panic _ _ _ H).
+    intro H. exists first, rest. split; [reflexivity |]. exact (lex_tail_panic _ _ _ _ H).
   - destruct (lookup operator_table (b :: bs)) as [[t0 eff] |]; [discriminate |].
     destruct (match_io_number (b :: bs)) as [[ds op] |]; [discriminate |].
-    intro H. exfalso.
-    destruct (atCommandStart _).
-    + destruct (lookup keyword_table (b :: bs)) as [[t0 eff] |]; [discriminate |].
-      apply lex_word_panic in H. discriminate.
-    + apply lex_word_panic in H. discriminate.
+    intro H. apply lex_tail_panic in H. discriminate.
 Qed.
 
 (* Lex never puts tokens back *)
 Lemma Lex_remaining lx t lx' : Lex lx = LexTok t lx' ->
   remaining lx' = remaining lx \/ exists first, remaining lx = first :: remaining lx'.
 Proof.
-  unfold Lex. destruct (remaining lx) as [| first rest] eqn:Erem; [discriminate |].
-  assert (Hword : forall token kind l, lex_word token kind (bump l) = LexTok t lx' -> remaining lx' = remaining l).
-  { intros token kind l H. apply lex_word_keeps in H. destruct H as [Hr _].
-    destruct (bump_keeps l) as [Hrb _]. congruence. }
-  destruct (ioRedirect lx) as [| b bs].
-  - right. exists first. f_equal.
-    set (lx1 := set_remaining rest (set_io [] lx)) in *.
-    assert (Hr1 : remaining lx1 = rest) by reflexivity.
+  rewrite Lex_shape. destruct (remaining lx) as [| first rest] eqn:Erem; [discriminate |].
+  destruct (ioRedirect lx) as [| b bs]; cbv zeta.
+  - intro H. right. exists first. f_equal.
+    set (lx2 := set_aa false (set_remaining rest (set_io [] lx))) in *.
+    assert (Hr2 : remaining lx2 = rest) by reflexivity.
     destruct (lookup operator_table (t_text first)) as [[t0 eff] |] eqn:Eop.
-    + injection H as <- <-. destruct (operator_effects_keep _ _ _ Eop lx1) as [Hr _]. congruence.
+    + injection H as <- <-. destruct (operator_effects_keep _ _ _ Eop lx2) as [Hr _]. congruence.
     + destruct (match_io_number (t_text first)) as [[ds op] |].
       * injection H as <- <-. reflexivity.
-      * destruct (atCommandStart lx1).
-        -- destruct (lookup keyword_table (t_text first)) as [[t0 eff] |] eqn:Ekw.
-           ++ injection H as <- <-.
-              destruct (keyword_effects_keep _ _ _ Ekw (set_for (-1) (set_case (-1) lx1))) as [Hr _].
-              rewrite Hr. reflexivity.
-           ++ rewrite (Hword _ _ _ H). reflexivity.
-        -- rewrite (Hword _ _ _ H). reflexivity.
-  - left.
-    set (lx1 := set_io [] lx) in *.
-    assert (Hr1 : remaining lx1 = first :: rest) by (unfold lx1; cbn [remaining set_io]; exact Erem).
+      * apply lex_tail_keeps in H. destruct H as [Hr _]. congruence.
+  - intro H. left.
+    set (lx2 := set_aa false (set_io [] lx)) in *.
+    assert (Hr2 : remaining lx2 = first :: rest) by (unfold lx2; cbn [remaining set_io set_aa]; exact Erem).
     destruct (lookup operator_table (b :: bs)) as [[t0 eff] |] eqn:Eop.
-    + injection H as <- <-. destruct (operator_effects_keep _ _ _ Eop lx1) as [Hr _]. congruence.
+    + injection H as <- <-. destruct (operator_effects_keep _ _ _ Eop lx2) as [Hr _]. congruence.
     + destruct (match_io_number (b :: bs)) as [[ds op] |].
-      * injection H as <- <-. cbn [remaining set_io]. exact Hr1.
-      * destruct (atCommandStart lx1).
-        -- destruct (lookup keyword_table (b :: bs)) as [[t0 eff] |] eqn:Ekw.
-           ++ injection H as <- <-.
-              destruct (keyword_effects_keep _ _ _ Ekw (set_for (-1) (set_case (-1) lx1))) as [Hr _].
-              rewrite Hr. exact Hr1.
-           ++ rewrite (Hword _ _ _ H). exact Hr1.
-        -- rewrite (Hword _ _ _ H). exact Hr1.
+      * injection H as <- <-. cbn [remaining set_io]. exact Hr2.
+      * apply lex_tail_keeps in H. destruct H as [Hr _]. congruence.
 Qed.
 
 Lemma lex_stream_panic fuel : forall lx,
